@@ -47,7 +47,10 @@ class C04(Property):
                                 gen.wrap("optional", gen.req_flag(names.named(), "unit")),
                                 gen.pure("unit")])
             g = gen.adj(first, gen.pos("A", "string"))
-            opts = gen.options(gen.con(rng.choice([g, gen.wrap("many", g), gen.wrap("optional", g)]), gen.flag(names.named())), descr="Ladj")
+            # check_invariants reports such a group (fix: commit 1225acf) -- unless the whole group is hidden: hide() leaves
+            # no metadata behind (known finding C04-hidden-adjacent-without-first-item)
+            wrapped = rng.choice([g, gen.wrap("many", g), gen.wrap("optional", g), gen.wrap("hide", g), gen.wrap("hide", gen.wrap("optional", g))])
+            opts = gen.options(gen.con(wrapped, gen.flag(names.named())), descr="Ladj")
             return opts
         if r < 0.5:
             opts, names = gen.gen_options(rng, features=("alt", "adj", "cmd", "pos", "grp"), allow_catch=rng.random() < 0.5,
@@ -257,14 +260,16 @@ class C04(Property):
         return C04.has_first_item(p["p"])
 
     def known_class(self, cls, f):
-        if cls != "adjacent_without_first_item" or f.case.opts is None:
+        if cls != "hidden_adjacent_without_first_item" or f.case.opts is None:
             return False
-        if "adjacent should start with a required argument" not in f.detail and "PANIC" not in f.detail:
+        if "adjacent should start with a required argument" not in f.detail:
             return False
-        # the definition contains an adjacent group whose metadata has no first item (it starts with a choice, a hidden
-        # or a pure parser): check_invariants accepts it, every evaluation of the group hits unreachable!()
-        return "adjacent should start with" in f.detail and any(
-            x["k"] == "adj" and not self.has_first_item(x) for x in gen.walk(f.case.opts))
+        # the definition contains, UNDER hide(), an adjacent group whose metadata has no first item (it starts with a choice,
+        # a hidden or a pure parser): hide() leaves Meta::Skip behind, check_invariants cannot see the group, every
+        # evaluation of it hits unreachable!().  (A visible group of that kind is reported by check_invariants since fix
+        # 1225acf: such definitions do not pass it and are outside the property.)
+        hidden_groups = [y for x in gen.walk(f.case.opts) if x["k"] == "hide" for y in gen.walk(x["p"]) if y["k"] == "adj"]
+        return any(not self.has_first_item(y) for y in hidden_groups)
 
 
 PROP = C04()
